@@ -122,8 +122,8 @@ theorem rebalance_leaf (p : Params K) (pv : p.Valid) (keys1 : List K) (kids1 : L
       fixMerge 1 fx slot = some (keys3, kids3, lf, inf) ∧ RebalanceOut p 0 keys1 kids1 keys3 kids3 lf inf ∧
       SepPart p 0 keys1 kids1 keys3 kids3 := by
   have hl4 := pv.leaf4
-  have hmin : 2 ≤ p.leafMin := by simp [Params.leafMin]; omega
-  have hmin2 : 2 * p.leafMin ≤ p.leafMax := by simp [Params.leafMin]; omega
+  have hmin : 2 ≤ p.leafMin := by simp [Params.leafMin, Gen.leafSlotmin]; omega
+  have hmin2 : 2 * p.leafMin ≤ p.leafMax := by simp [Params.leafMin, Gen.leafSlotmin]; omega
   obtain ⟨c, rfl, hc1, hc2⟩ := shapeTop0_leaf hCs
   simp only [BNode.slotuse] at hfull hunder
   by_cases hu : p.leafMin ≤ c.length
@@ -352,8 +352,8 @@ theorem rebalance_inner (p : Params K) (pv : p.Valid) (h l : Nat) (hl : l ≠ 1)
       fixMerge l fx slot = some (keys3, kids3, lf, inf) ∧ RebalanceOut p (h + 1) keys1 kids1 keys3 kids3 lf inf ∧
       SepPart p (h + 1) keys1 kids1 keys3 kids3 := by
   have hi4 := pv.inner4
-  have hmin : 2 ≤ p.innerMin := by simp [Params.innerMin]; omega
-  have hmin2 : 2 * p.innerMin ≤ p.innerMax := by simp [Params.innerMin]; omega
+  have hmin : 2 ≤ p.innerMin := by simp [Params.innerMin, Gen.innerSlotmin]; omega
+  have hmin2 : 2 * p.innerMin ≤ p.innerMax := by simp [Params.innerMin, Gen.innerSlotmin]; omega
   obtain ⟨cv, ck, cc, rfl, hcv, hca, hc1, hc2, hcc⟩ := shapeTopS_inner hCs
   simp only [BNode.slotuse] at hfull hunder
   by_cases hu : p.innerMin ≤ ck.length
